@@ -92,13 +92,33 @@ def _has_var(t):
 EXTRA_SCHEMAS = []
 
 
+_NO_A4 = {}  # term id -> term (kept alive, so the id stays valid): top-level terms known to contain no A4 application
+
+
+def _none_mention_a4(terms):
+    """Cached pre-check (performance only): hypotheses are shared by the obligations of a path, scan each of them once."""
+    for t in terms:
+        i = t.get_id()
+        if i in _NO_A4:
+            continue
+        if any(_apps([t]).values()):
+            return False
+        _NO_A4[i] = t
+    return True
+
+
 def lemma_instances(terms, rounds=2, extra_points=()):
     """Ground instances of the A4 lemma schemas for the function applications occurring in `terms`.
     Returns (list of z3 facts, count)."""
+    if _none_mention_a4(terms):
+        return [], 0
     facts = []
     seen_facts = set()
     extra = []  # instances from EXTRA_SCHEMAS: appended at the end, the built-in schemas are not re-instantiated on them
-    if EXTRA_SCHEMAS and any(_apps(list(terms)).values()):
+    apps0 = _apps(list(terms))
+    if not any(apps0.values()):
+        return [], 0
+    if EXTRA_SCHEMAS:
         for sch in EXTRA_SCHEMAS:
             for f in sch(list(terms)):
                 if f.get_id() not in seen_facts:
